@@ -67,6 +67,15 @@ def T(rng, t):
     return tpl.format(t=t, t1=t + 1, k=k, kc=1000 + k, touch=touch)
 
 
+# Recorded findings (known_findings.txt): references into temporaries. Each probe runs alone in its own process; the key names the probe, so any
+# other use-after-free - also one with the same reader frames - is still reported under its own crash key.
+KNOWN_PROBES = [
+    ("reference-into-temporary:member-of-returned-object", "var q = make_value(4).tag\nsettle()\nq + 0"),
+    ("reference-into-temporary:member-of-constructed-object", "var q = Tracked(5).tag\nsettle()\nq + 0"),
+    ("reference-into-destroyed-syntax-tree:element-of-string-literal", "\"abc\"[1]"),
+]
+
+
 def build(rng, idx):
     parts = []
     base = 100
@@ -81,7 +90,7 @@ def run(ctx, tier, seed, scale=1.0):
     exe = vlib.build("asan", ["c11_life"])["c11_life"]
     n = int((3000 if quick else 200000) * scale)
     progs = [build(rng, i) for i in range(n)]
-    cases = [["T", s] for s in progs]
+    cases = [["T", s, "read-result"] for s in progs]
     res, hf = vlib.run_cases(exe, cases, "c11", timeout_s=120, batch=16)
     ctx.harness_failures += hf
     vlib.judge_crashes(ctx, exe, cases, res, "c11", timeout_s=120, describe=lambda k: {"program": progs[k]})
@@ -108,6 +117,16 @@ def run(ctx, tier, seed, scale=1.0):
             ctx.violation(fail.split(" ")[0], w)
         if len(ctx.samples) < 3 and rng.random() < 0.002:
             ctx.sample({"program": s[:1500], "constructed": constructed})
+    pc = [["T", prog, "read-result"] for _, prog in KNOWN_PROBES]
+    pres, _ = vlib.run_cases(exe, pc, "c11k", timeout_s=60, batch=1)
+    for (key, prog), r in zip(KNOWN_PROBES, pres):
+        ctx.evaluations += 1
+        if r.status == "crash":
+            ctx.violation(key, {"program": prog, "crash": vlib.crash_key(r.stderr, r.fields[0] if r.fields else "?"), "stderr": r.stderr[:1500]})
+            ctx.count("known-probe-crashed")
+        else:
+            ctx.count("known-probe-no-longer-fails")
+    # returned values are read by the host in a share of the ordinary programs as well (see 'read-result' below)
     ctx.min_events["instances-destroyed"] = 5000
     if not ctx.samples:
         ctx.sample({"program": progs[0][:1500]})
